@@ -357,6 +357,46 @@ def casededup(repo):
     return res
 
 
+def namearms(repo):
+    """The converse of R-CASEDEDUP: a template that renders a name-keyed arm (`strcmp("${name}", ...)`)
+    is instantiated once per name -- never under a membership test (value de-duplication would
+    drop the second name of an aliased value from the name->value mapping)."""
+    res = RuleResult("R-NAMEARMS")
+    tp = Templates(repo)
+    m = repo.mod(HG)
+    name_templates = {n for n, t in tp.templates.items() if re.search(r'strcmp\(\s*"\$\{?\w+\}?"', t["text"])}
+    if not name_templates:
+        raise AnalysisError("no template renders a strcmp(\"${name}\", ...) arm")
+    res.detail["name_templates"] = sorted(name_templates)
+    for n in ast.walk(m.tree):
+        if isinstance(n, ast.Call) and (call_name(n) or "").endswith("format_template") and n.args:
+            f = m.enclosing_func(n)
+            cands = _template_candidates(m, f, n.args[0]) or set()
+            hit = cands & name_templates
+            if not hit:
+                continue
+            res.instances += 1
+            tname = sorted(hit)[0]
+            bad = None
+            for g in [p for p in _enclosing(m, n, f.node) if isinstance(p, ast.If)]:
+                if not any(n in list(ast.walk(s)) for s in g.body):
+                    continue
+                for c in ast.walk(g.test):
+                    if isinstance(c, ast.Compare) and any(isinstance(o, (ast.In, ast.NotIn)) for o in c.ops):
+                        bad = ast.unparse(g.test)
+            if not any(isinstance(p, ast.For) for p in _enclosing(m, n, f.node)):
+                res.add(f"{HG}|{f.qualname}|{tname}|loop", f"template {tname} (a name->value arm) is not instantiated in a loop "
+                        "over the names", HG, n.lineno, f.qualname)
+            elif bad:
+                res.add(f"{HG}|{f.qualname}|{tname}", f"template {tname} (a name->value arm keyed by the name) is instantiated only "
+                        f"under the membership test `{bad}`: a name whose value (or other key) was seen before gets no arm, "
+                        "so the documented name is not accepted by TryToGetEnumFromName / text input", HG, n.lineno, f.qualname)
+            elif len(res.samples) < 3:
+                res.samples.append(f"{tname} @ {HG}:{n.lineno}: one arm per name, no membership guard")
+    res.analysed = [HG, TEMPLATES]
+    return res
+
+
 def dollar(repo):
     """`$`-field names agree between grammar literals, tokenizer literals, synthetics and the
     C++ name table."""
@@ -1468,6 +1508,57 @@ def paramvis(repo, templates):
                 "end accepts `inner.n` (member lookup finds parameters) and the back end renders it as `inner().n()` from another "
                 "class: the header does not compile", TEMPLATES, templates.templates[name]["line"], name)
     res.analysed = [TEMPLATES, sr.rel]
+    return res
+
+
+def crossfriend(repo, templates):
+    """R-CROSSFRIEND (C07): Generic<Name>View<A> and Generic<Name>View<B> are unrelated classes.  The view class has member
+    templates over another storage (converting constructor, operator=, Equals, UncheckedEquals) whose generated bodies
+    reach into the other instantiation: the parameter members (`other.x_`, `other.parameters_initialized_`, rendered by
+    header_generator) live in the class's `private:` section, and fields whose visibility is "private" (members of an
+    anonymous `bits`) are compared through `other.<field>()`.  As long as any of these accesses is generated, the class
+    template must befriend its other instantiations, or `view = writer` / `view.Equals(writer)` does not compile."""
+    res = RuleResult("R-CROSSFRIEND")
+    name = "structure_view_class"
+    if name not in templates.templates:
+        raise AnalysisError(f"template {name} vanished")
+    text = templates.templates[name]["text"]
+    line0 = templates.templates[name]["line"]
+    cross = re.findall(r"Generic\$\{name\}View<\s*OtherStorage\s*>", text)
+    res.instances += 1
+    if not cross:
+        res.samples.append("no member template over another storage: nothing to befriend")
+        return res
+    m = repo.mod(HG)
+    needs = []
+    priv_at = re.search(r"^\s*private\s*:", text, re.M)
+    private_part = text[priv_at.end():] if priv_at else ""
+    for n in ast.walk(m.tree):
+        if isinstance(n, ast.Constant) and isinstance(n.value, str) and "emboss_reserved_local_other." in n.value:
+            res.instances += 1
+            for mem in re.findall(r"emboss_reserved_local_other\.([\w{}]+)", n.value):
+                # rendered into ${parameter_copy_*}; the members themselves are the ${parameter_fields} /
+                # ${parameters_initialized_flag} placeholders of the private section
+                if "parameter_fields" in private_part or "parameters_initialized_flag" in private_part:
+                    needs.append((n.lineno, f"other.{mem} (a data member of the private section)"))
+    vis = [f for f in m.top_funcs() if f.name == "_visibility_for_field"]
+    if not vis:
+        raise AnalysisError("header_generator._visibility_for_field vanished")
+    if any(isinstance(n, ast.Constant) and n.value == "private" for n in ast.walk(vis[0].node)):
+        for tn, t in templates.templates.items():
+            if re.search(r"emboss_reserved_local_other\.(has_)?\$\{field\}", t["text"]):
+                res.instances += 1
+                needs.append((t["line"], f"template {tn}: other.${{field}}() of a field that _visibility_for_field makes private"))
+    friend = re.search(r"template\s*<\s*(class|typename)\s+\w+\s*>\s*friend\s+class\s+Generic\$\{name\}View\s*;", text)
+    if len(needs) < 2:
+        raise AnalysisError(f"cross-storage accesses to private members found: {needs} (expected parameter members and private fields)")
+    if not friend:
+        res.add(f"{TEMPLATES}|{name}|friend", f"{name} has {len(cross)} member templates over Generic${{name}}View<OtherStorage> and the "
+                f"generated code reaches {len(needs)} private members of the other instantiation (e.g. {needs[0][1]}), but the class "
+                "no longer declares `template <class OtherStorage> friend class Generic${name}View;`: cross-storage construction, "
+                "assignment and Equals of structures with parameters or anonymous bits do not compile", TEMPLATES, line0, name)
+    res.samples = [f"{len(cross)} cross-storage members, {len(needs)} private accesses, friend declared: {bool(friend)}"]
+    res.analysed = [TEMPLATES, HG]
     return res
 
 
